@@ -249,6 +249,9 @@ func (c *Ctx) Control(fired bool) {
 func (c *Ctx) Violation(sig, caseKey string, desc, want, got interface{}) {
 	c.mu.Lock()
 	defer c.mu.Unlock()
+	if c.Flavour != "" && c.Flavour != "plain" {
+		sig += "@" + c.Flavour
+	}
 	c.violBy[sig]++
 	if c.violBy[sig] <= maxWitnessPerSig {
 		c.emit(map[string]interface{}{"t": "viol", "v": Violation{Prop: c.Prop, Sig: sig, Group: c.group, Case: caseKey,
